@@ -130,7 +130,11 @@ def ref_windows(raw, e: int, nodes) -> dict:
             n1 = c.output_node.name
             ed = raw.edges[(n1, n2)]
             msgs = [(int(so), int(si), float(tr)) for so, si, tr in zip(ed.seq_out[e], ed.seq_in[e], ed.ts_recv[e]) if so >= 0 and si >= 0]
-            W = c.window + int(c.delay_dist.window(nodes[n1].rate))
+            # window extension of a trainable delay, computed here and not by rex: enough entries for every delay in [min, max], i.e. for the
+            # messages sent during max - min at the producer's rate
+            dd = c.delay_dist
+            ext = int(onp.ceil(nodes[n1].rate * (dd.max - dd.min))) if type(dd).__name__ == "TrainableDist" else 0
+            W = c.window + ext
             ptr = 0
             cons: List[int] = []
             for k in seqs:
